@@ -42,7 +42,8 @@ META = {
     'rule': ("cases = include trees of depth <= 3 over 2-6 files in nested directories x placements of #define / #ifdef / #ifndef / "
              "#else / #endif around includes and #error x [molecules] lists with repeated names x random decorations; plus a malformed "
              "stream (unbalanced conditionals, missing files, unknown sections, unknown molecule names); non-trivial = at least one "
-             "conditional include or #error and two files; distinct by the file tree text"),
+             "conditional include or #error and two files; distinct by the file tree text"
+             "; directed / added families (waves 10-12): [ molecules ] entries anywhere in the include tree (own file, split, conditional); macro-definition files included inside molecule definitions"),
 }
 
 
